@@ -1,4 +1,10 @@
 import SJ.Props.C10
+import SJ.Props.Typed
 #print axioms SJ.Props.C10.prefix_fails_only_at_end
 #print axioms SJ.Props.C10.c10_prefix_ignored
-#print axioms SJ.Props.C10.c10_prefix_value_partial
+#print axioms SJ.Props.Typed.c10_typed_core
+#print axioms SJ.Props.Typed.c10_typed_prefix
+#print axioms SJ.Props.Typed.c10_typed_prefix_partial
+#print axioms SJ.Props.C10.c10_prefix_value_exact
+#print axioms SJ.Props.C10.c10_number_exception
+#print axioms SJ.Props.C10.c10_prefix_value_ap
